@@ -66,4 +66,11 @@ theorem gen_reader_constants :
     (buildExec (Gen.Nvidia.execKernelPrefix ++ "-1.traceg").toList).toOption = some (.kernel "kernel-1.traceg".toList) ∧
     Gen.Nvidia.kernelsListFileName = "kernelslist.g" := by decide +kernel
 
+/-- **The shipped platform meets the shape hypotheses** of `terminates_all_idle`,
+    `exactly_once_at_quiescence`, `engine_exactly_once` (at least one device, SM and sub-core), and is the
+    shape the harness runs as `g=1 s=108 c=4`. -/
+theorem gen_a100_shape :
+    1 ≤ Gen.Nvidia.a100Shape.1 ∧ 1 ≤ Gen.Nvidia.a100Shape.2.1 ∧ 1 ≤ Gen.Nvidia.a100Shape.2.2 ∧
+    Gen.Nvidia.a100Shape = (1, 108, 4) := by decide
+
 end C20
